@@ -14,8 +14,12 @@ RULE = ("No world enumeration. Sources drawn by Hypothesis: small generated stro
         "/ 60 conditionals quick and 100/100 thorough, AO examples, birds, all 484 two-atom "
         "inference-relation representatives). For each (base, query batch): answers of every "
         "operator x back-end in both modes, then p=>Z=>W=>lex for every combination of back-ends "
-        "and, strict mode, p=>c=>W (c-inference up to 20 conditionals). evaluations = "
-        "implications checked. non-trivial = query on which the chain is not constant or "
+        "and, strict mode, p=>c=>W (c-inference up to 20 conditionals). evaluations = implications checked. "
+        "Small bases also come as 'distinguishing inputs' (vlib/hard.py: queries on which the System W "
+        "/ lexicographic procedure and a plausible wrong variant of it disagree), kept only when - by "
+        "the reference - a neighbouring operator of the chain gives the informative answer (lower "
+        "side True or upper side False), so that a slip of the operator in between breaks an "
+        "inclusion. non-trivial = query on which the chain is not constant or "
         "p-entailment already says True; distinct by (base identity, query text, mode).")
 ASSUMPTIONS = ["the inclusion theorems p<=Z<=W<=lex and p<=c<=W (literature; also self-checked inside "
                "the world-enumeration oracle on every small case of C01-C07)",
@@ -29,13 +33,30 @@ CHAIN_C = [("p", "c"), ("c", "w-rc2"), ("c", "w-z3")]
 
 
 def budget(tier):
-    return {"examples": 1100 if tier == "quick" else 8000,
+    return {"examples": 1100 if tier == "quick" else 8000, "hard_examples": 288 if tier == "quick" else 3000,
             "soft_seconds": 300 if tier == "quick" else 3000}
 
 
 def _search3(seed):
     from .. import search as S
     return S.three_layer_search(seed)
+
+
+def _informative(M, sem, a, v, f):
+    """(reference side, input selection only) some inclusion has a True on its lower side or a
+    False on its upper side here, so a wrong answer of the operator in between shows up"""
+    from .. import ref
+    w, lx = M.system_w(a, v, f), M.lex(a, v, f)
+    if w and not M.system_z(a, v, f):
+        return ref.c_inference_smt(sem, a, v, f)[0] is True     # c <= W is the only inclusion that can speak
+    return w or not lx                                           # W <= lex
+
+
+def _hard(seed):
+    """distinguishing inputs for the System W / lexicographic procedures (vlib/hard.py) on which a
+    neighbouring operator of the chain gives the informative answer"""
+    from .. import hard
+    return hard.any_kind(seed, accept=_informative)
 
 
 def _layered():
@@ -61,6 +82,10 @@ def strategy(tier):
     )
 
 
+def hard_strategy(tier):
+    return st.integers(0, 2**40).map(_hard)
+
+
 def run_case(case, ctx):
     m = rel.materialise(case, weak_ok=True)
     if m is None:
@@ -78,6 +103,9 @@ def run_case(case, ctx):
     strongly = not part[-1]
     src = case.get("family") or ("medium" if case.get("medium") else "small")
     ctx.stratum(f"source:{src}")
+    if str(case.get("searched", "")).startswith(("w:", "lex:")):
+        ctx.stratum("source:distinguishing-input")
+        ctx.extra["reference_only_candidates"] = ctx.extra.get("reference_only_candidates", 0) + case.get("tried", 0)
     ctx.stratum(f"size:{rel.size_class(atoms, base)}")
     R = rel.Runner(atoms, base, queries)
     out = []
@@ -128,4 +156,4 @@ def shrink(case):
 
 def required_strata(tier):
     return ["source:small", "source:medium", "source:random_large", "source:484", "source:AO",
-            "chain:not-constant", "chain:all-true", "size:medium", "size:large"]
+            "chain:not-constant", "chain:all-true", "size:medium", "size:large", "source:distinguishing-input"]
